@@ -8,11 +8,11 @@ import (
 
 // Clock decision modes (low byte of a "clock" decision; param in the rest).
 const (
-	ClockHold       = 0
-	ClockAdvance    = 1 // param = nanoseconds forward
-	ClockYearEnd    = 2 // jump to 1ns before the next New Year (UTC)
-	ClockYearStart  = 3 // jump to the next New Year (UTC) exactly
-	ClockBackwards  = 4 // param = nanoseconds backwards (skew / NTP step)
+	ClockHold      = 0
+	ClockAdvance   = 1 // param = nanoseconds forward
+	ClockYearEnd   = 2 // jump to 1ns before the next New Year (UTC)
+	ClockYearStart = 3 // jump to the next New Year (UTC) exactly
+	ClockBackwards = 4 // param = nanoseconds backwards (skew / NTP step)
 )
 
 // Now replaces time.Now in rewritten code: the only clock the system reads.
